@@ -362,7 +362,11 @@ def check_multiplication(desc):
         else:
             prod = np.sum(bd * gv[:, None, :], axis=0, keepdims=True)
         loc = ie * np.einsum("q,ciq,cjq->ij", w, bt, prod)
-        laba = ie * np.einsum("q,ciq,cjq->ij", w, np.abs(bt), np.abs(prod))
+        if mode == "component":
+            aprod = np.abs(bd) * np.abs(gv)[:, None, :]
+        else:
+            aprod = np.sum(np.abs(bd) * np.abs(gv)[:, None, :], axis=0, keepdims=True)  # before cancellation in the inner product
+        laba = ie * np.einsum("q,ciq,cjq->ij", w, np.abs(bt), aprod)
         for i in range(loc.shape[0]):
             for j in range(loc.shape[1]):
                 R[l2t[e, i], l2d[e, j]] += loc[i, j]
